@@ -51,3 +51,7 @@ EXTRA += [
     ("C02", "DsProofs.Properties.C02", ["DsProofs.C02.C02_point", "DsProofs.C02.C02_main", "DsProofs.C02.C02_distinct", "DsProofs.C02.C02_knn1",
                                          "DsProofs.C02.C02_null_below_K", "DsProofs.C02.C02_present_mono", "DsProofs.C02.C02_game_def", "DsProofs.C02.C02_value_def"]),
 ]
+EXTRA += [
+    ("C09", "DsProofs.Properties.C09", ["C09_main", "C09_total", "C09_chain", "C09_mapfork", "C09_compile", "C09_exact", "C09_single_unit", "C09_locSpecOk"]),
+    ("C02", "DsProofs.Properties.C02Oracle", ["C02_exact", "C02_mapfork", "oracleSpec_of_C09"]),
+]
